@@ -391,7 +391,7 @@ package silence
 //@   ensures [target-untouched] !called("os.Rename") && !called("os.Remove")
 //@   ensures [error-means-nothing] result1 != nil ==> result0 == nil
 //@ func (*Silences).Maintenance$1
-//@   props C11
+//@   props C11 C12 C02
 //@   nosafe
 //@   at call replaceFile).Close assert [rename-only-complete-snapshot] called("Silences).Snapshot") && ret1("Silences).Snapshot") == nil
 //@   ensures [error-reported] called("Silences).Snapshot") && ret1("Silences).Snapshot") != nil ==> result1 != nil
@@ -649,7 +649,7 @@ package silence
 //@   ensures [non-nil] result != nil
 //@   assigns nothing
 //@ func (*cache).set
-//@   props C02
+//@   props C02 C09
 //@   ensures [monitor-lock-released] count("Mutex).Lock") == count("Mutex).Unlock") && count("Mutex).Lock") == 1
 //@   requires c != nil && c.entries != nil
 //@   ensures [stored] dom(c.entries) == setadd(old(dom(c.entries)), fp) && vals(c.entries) == upd(old(vals(c.entries)), fp, entry)
